@@ -56,6 +56,20 @@ def make_graph (rng, gnd = None, curves = True, nw_max = 6, seg = (1, 5), tags =
                 geo.append (gen.wire (int (rng.integers (seg [0], seg [1] + 1)), nodes [a], nodes [b], 1e-3 * scale))
                 ends.append (dict (w = len (geo) - 1, e = 0, node = a, gnd = False))
                 ends.append (dict (w = len (geo) - 1, e = 1, node = b, gnd = False))
+        if rng.random () < 0.5:
+            # a second curve of the other kind, free standing (objects without tags are numbered arcs first, then
+            # helices, then wires - whatever the order in which they are given)
+            if c ['k'] == 'h':
+                a1 = float (rng.uniform (0, 180))
+                c2 = dict (k = 'a', n = int (rng.integers (3, 8)), radius = 2.0 * scale, a1 = a1, a2 = a1 + float (rng.uniform (40, 300)), r = 1e-3 * scale, tag = None)
+            else:
+                c2 = dict ( k = 'h', n = int (rng.integers (4, 9)), length = float (rng.choice ([1, -1])) * 1.5 * scale, turn = float (rng.choice ([1, -1])) * 1.1 * scale
+                          , r = 1e-3 * scale, rx1 = 0.8 * scale, ry1 = 0.6 * scale, tag = None)
+            nd2 = georef.nodes_of (c2)
+            geo.append (c2)
+            for e, p in ((0, nd2 [0]), (1, nd2 [-1])):
+                nodes ['d%d' % e] = p
+                ends.append (dict (w = len (geo) - 1, e = e, node = 'd%d' % e, gnd = False))
         # move the lattice away from the curve
         for i in range (K):
             nodes [i] = nodes [i] + off
